@@ -4,6 +4,6 @@
     stay the extracted inductives. *)
 From Coq Require Import ZArith List.
 From Coq Require Import ExtrOcamlBasic.
-From SimVerif Require Import Model.Base Model.Env Model.FamEnv Model.RM Model.FamRM Model.Maint Model.FamMaint Model.Sched Model.FamSched Model.Sensor Model.FamSensor Model.FloorTypes Model.Floor Model.FamFloor Model.Sys Model.FamSys.
+From SimVerif Require Import Model.Base Model.Env Model.FamEnv Model.RM Model.FamRM Model.Maint Model.FamMaint Model.Sched Model.FamSched Model.Sensor Model.FamSensor Model.FloorTypes Model.Floor Model.FamFloor Model.Sys Model.FamSys Model.Line Model.FamLine.
 Extraction Language OCaml.
-Separate Extraction run_fam_env run_fam_rm run_fam_maint run_fam_sched run_fam_sensor run_fam_floor run_fam_sys.
+Separate Extraction run_fam_env run_fam_rm run_fam_maint run_fam_sched run_fam_sensor run_fam_floor run_fam_sys run_fam_line.
